@@ -56,7 +56,7 @@ func (sc *metaScn) c06Check(st *metaStep) {
 	// specific protections of the owner
 	argMode, plain := parsePlainMode(st.Arg)
 	if st.actorU == ownerBefore {
-		if st.Kind == "unsub" {
+		if st.Kind == "unsub" || st.Kind == "unsubChn" {
 			r.Hit("owner_cannot_unsubscribe")
 			if ra, ok := st.after.subs[ownerBefore]; st.Code < 300 || !ok || ra.DeletedAt != nil {
 				r.Violation("owner-unsubscribed", "owner's {leave unsub} was not refused", sc.wit(st, nil))
@@ -224,8 +224,9 @@ func metaRun(t *testing.T, focus string) {
 			// the creator asks for a default access which contains O next to an unparsable one
 			metaNextDefacs = map[string]any{"auth": "JRWPSO", "anon": []string{"Q!", "JRX", "N"}[(i/4)%3]}
 		}
+		metaNextChan = focus == "C06" && i%4 == 2
 		sc := metaSetup(w, r, focus, kind)
-		metaNextDefacs = nil
+		metaNextDefacs, metaNextChan = nil, false
 		if sc != nil {
 			metaScenario(sc, i)
 		}
@@ -259,6 +260,43 @@ func metaScenario(sc *metaScn, idx int) {
 				sc.after(sc.do(own, "delSub", mem, ""))
 				sc.after(sc.do(mem, "sub", nil, ""))
 				sc.after(sc.do(mem, "sub", nil, "JRWPS"))
+			}
+		}
+		if sc.focus == "C07" && idx%2 == 1 {
+			// a user who unsubscribed is invited again when the group is full: the limit counts live subscriptions,
+			// whoever creates them
+			str := sc.actor("stranger")
+			sc.after(sc.do(str, "sub", nil, ""))
+			sc.after(sc.do(str, "unsub", nil, ""))
+			for _, role := range []string{"candidate", "sharer", "stranger"} {
+				live := 0
+				for _, row := range sc.rowsNow().subs {
+					if row.DeletedAt == nil {
+						live++
+					}
+				}
+				if live >= sc.maxSubs || role == "stranger" {
+					break
+				}
+				sc.after(sc.do(sc.actor(role), "sub", nil, ""))
+			}
+			live := 0
+			for _, row := range sc.rowsNow().subs {
+				if row.DeletedAt == nil {
+					live++
+				}
+			}
+			if live >= 2 && live <= sc.maxSubs {
+				// the group is made exactly full by lowering the configured limit to the current head count
+				saved := globals.maxSubscriberCount
+				sc.w.e.vfQuiesce()
+				globals.maxSubscriberCount, sc.maxSubs = live, live
+				sc.after(sc.do(own, "setOther", str, ""))
+				sc.after(sc.do(sc.actor("admin"), "setOther", str, "JRWPS"))
+				sc.after(sc.do(str, "sub", nil, ""))
+				r.Hit("full_group_reinvite_of_former_subscriber")
+				sc.w.e.vfQuiesce()
+				globals.maxSubscriberCount, sc.maxSubs = saved, saved
 			}
 		}
 		switch idx % 4 {
@@ -301,6 +339,13 @@ func metaScenario(sc *metaScn, idx int) {
 			sc.after(sc.do(sc.actor("candidate"), "setSelf", nil, "N"))
 			sc.after(sc.do(sc.actor("candidate"), "sub", nil, ""))
 			r.Hit("rejoin_with_pending_offer")
+			if sc.focus == "C06" {
+				// the group is channel-enabled in these scenarios: the owner addresses it by its channel name
+				sc.after(sc.do(own, "leaveChn", nil, ""))
+				sc.after(sc.do(own, "unsubChn", nil, ""))
+				sc.after(sc.do(own, "sub", nil, ""))
+				r.Hit("owner_unsubscribes_by_channel_name")
+			}
 		case 3:
 			sc.after(sc.do(own, "setOther", sc.actor("sharer"), ""))
 			sc.after(sc.do(sc.actor("sharer"), "sub", nil, "JRWPS"))
